@@ -213,6 +213,53 @@ where
     ))
 }
 
+/// x and y are views into one allocation that start at the same element (a row and a column of
+/// one table, or a forward and a reversed slice of one vector): the strategy builder must see
+/// validated axes all the same
+fn build_2d_alias<const MIN: usize>(m: usize, xok: bool, yok: bool, kind: usize) -> (String, Vec<Event>, String) {
+    let seq = |ok: bool, i: usize| -> f64 { if ok { i as f64 } else { [0.0, 5.0, 1.0, 6.0, 2.0, 7.0][i] } };
+    let log: Log = Arc::new(Mutex::new(vec![]));
+    let l2 = log.clone();
+    let data = ndarray::Array2::from_elem((m, m), 1.0);
+    let (r, what) = if kind == 0 {
+        // x = column 0, y = row 0 of one m x m table
+        let mut table = ndarray::Array2::<f64>::from_elem((m, m), 100.0);
+        for i in 0..m {
+            table[[i, 0]] = seq(xok, i);
+        }
+        for j in 1..m {
+            table[[0, j]] = seq(yok, j);
+        }
+        let (x, y) = (table.column(0), table.row(0));
+        let what = format!("x = table.column(0) = {:?}, y = table.row(0) = {:?}", x.to_vec(), y.to_vec());
+        (catch(|| Interp2DBuilder::new(data.view()).strategy(RecBuilder::<MIN> { log: l2, fail_build: false, fail_at: None }).x(x).y(y).build().map(|_| ())), what)
+    } else {
+        // x = v[m-1..] forwards, y = v[..m] backwards: both start at element m-1
+        let mut v = vec![0.0; 2 * m - 1];
+        for i in 0..m {
+            v[m - 1 + i] = seq(xok, i);
+        }
+        for j in 1..m {
+            v[m - 1 - j] = seq(yok, j);
+        }
+        let v = Array1::from(v);
+        let x = v.slice(ndarray::s![m - 1..]);
+        let y = v.slice(ndarray::s![..m;-1]);
+        let what = format!("x = v[{}..] = {:?}, y = v[..{m};-1] = {:?}", m - 1, x.to_vec(), y.to_vec());
+        (catch(|| Interp2DBuilder::new(data.view()).strategy(RecBuilder::<MIN> { log: l2, fail_build: false, fail_at: None }).x(x).y(y).build().map(|_| ())), what)
+    };
+    let ev = log.lock().unwrap().clone();
+    (
+        match r {
+            Ok(Ok(())) => "Ok".to_string(),
+            Ok(Err(e)) => format!("Err:{e}"),
+            Err(p) => format!("panic:{p}"),
+        },
+        ev,
+        what,
+    )
+}
+
 fn judge_build(out: &mut JobOut, key: String, min: usize, two_d: bool, fail_build: bool, res: (String, Vec<Event>), case: Json) {
     let (outcome, ev) = res;
     out.evals += 1;
@@ -269,6 +316,15 @@ macro_rules! for_min {
             2 => $f::<2, $d>($($a),*),
             3 => $f::<3, $d>($($a),*),
             _ => $f::<4, $d>($($a),*),
+        }
+    };
+    ($min:expr, $f:ident ( $($a:expr),* )) => {
+        match $min {
+            0 => $f::<0>($($a),*),
+            1 => $f::<1>($($a),*),
+            2 => $f::<2>($($a),*),
+            3 => $f::<3>($($a),*),
+            _ => $f::<4>($($a),*),
         }
     };
 }
@@ -347,6 +403,15 @@ fn part_build(min: usize, out: &mut JobOut) {
                         judge_build(out, key, min, true, false, r, case);
                     }
                 }
+            }
+        }
+    }
+    // 2-D with axes that alias each other
+    for m in 2..=5usize {
+        for (xok, yok) in [(true, true), (true, false), (false, true), (false, false)] {
+            for kind in 0..2 {
+                let (o, ev, what) = for_min!(min, build_2d_alias(m, xok, yok, kind));
+                judge_build(out, format!("build2d-alias:min{min}:m{m}:x{xok}:y{yok}:kind{kind}"), min, true, false, (o, ev), Json::str(&what));
             }
         }
     }
